@@ -340,6 +340,13 @@ def simplify(t, sym=None):
                 for n, v in inner[3]:
                     if n == t[2]:
                         return v
+            # payload of a merged value downcast to variant V: only a definition that built variant V can be read here
+            if inner[0] == "phi" and all(a[0] == "agg" for a in inner[2]):
+                match = [a for a in inner[2] if a[2] == b[2]]
+                if len(match) == 1:
+                    for n, v in match[0][3]:
+                        if n == t[2]:
+                            return v
         return t
     if tag == "bin":
         op, a, b = t[1], t[2], t[3]
